@@ -657,7 +657,60 @@ def m_log(x, base=None):
 
 # ------------------------------------------------------------------------------------------------
 # containers with symbolic keys / indices
+def _side(d, create=False):
+    """entries stored under SYMBOLIC keys in a plain dict (kept per path on the engine; latest first on lookup)"""
+    e = E.CURRENT
+    if e is None:
+        return None
+    tab = getattr(e, 'symdict', None)
+    if tab is None:
+        if not create:
+            return None
+        tab = e.symdict = {}
+    ent = tab.get(id(d))
+    if ent is None:
+        if not create:
+            return None
+        ent = tab[id(d)] = (d, [])
+    return ent[1]
+
+
+def sym_setitem(o, key, value):
+    if isinstance(o, dict) and (symbolic(key) or _side(o) is not None):
+        if symbolic(key):
+            _side(o, True).append((key, value))
+            return
+        # concrete key stored into a dict that also has symbolic keys: entries with a symbolic key that may be equal
+        # are shadowed by appending (lookups scan latest first)
+        _side(o, True).append((key, value))
+        o[key] = value
+        return
+    if symbolic(key) and isinstance(o, list):
+        n = len(o)
+        z = zint(key)
+        if z is None or SymBool(z3.Or(z >= n, z < -n)):
+            raise IndexError('list assignment index out of range')
+        o[concretize_int(key, -n, n - 1, 'index')] = value
+        return
+    o[key] = value
+
+
 def dict_lookup(d, key, default, has_default):
+    side = _side(d)
+    if side:
+        for k, v in reversed(side):
+            r = (key == k)
+            if r is NotImplemented:
+                r = False
+            if r is not False and r:
+                return v
+    if not symbolic(key):
+        try:
+            return d[key]
+        except KeyError:
+            if has_default:
+                return default
+            raise
     for k in d:
         r = (key == k)
         if r is NotImplemented:
@@ -670,6 +723,8 @@ def dict_lookup(d, key, default, has_default):
 
 
 def sym_getitem(o, i):
+    if isinstance(o, dict) and E.CURRENT is not None and _side(o):
+        return dict_lookup(o, i, None, False)
     if symbolic(i):
         if symbolic(o):
             return o[i]
@@ -823,6 +878,13 @@ def _str_method(f, a, kw):
 def _dict_method(f, a, kw):
     d = f.__self__
     name = f.__name__
+    if _side(d):
+        if name == 'get' and a:
+            return dict_lookup(d, a[0], a[1] if len(a) > 1 else None, True)
+        if name == '__getitem__':
+            return dict_lookup(d, a[0], None, False)
+        if name in ('keys', 'values', 'items', '__iter__', '__len__', 'pop', 'setdefault', '__delitem__', 'update', 'copy'):
+            raise Unmodelled('dict.%s on a dict holding symbolic keys' % name)
     if name == 'get' and a and symbolic(a[0]):
         return dict_lookup(d, a[0], a[1] if len(a) > 1 else None, True)
     if name in ('__getitem__',) and symbolic(a[0]):
